@@ -245,3 +245,127 @@ func TestVerif_C17_Contract(t *testing.T) {
 		tr.Close()
 	}
 }
+
+// TestVerif_C17_Multi replays TickerMulti behaviours: several messages with
+// their own contexts scheduled on ONE real Ticker through the real
+// ScheduleRetransmissions; after every step the number of retransmissions of
+// every message is compared with the specification (one per live tick for the
+// standard strategy, the documented backoff schedule of its own live ticks for
+// the backoff strategy).
+func TestVerif_C17_Multi(t *testing.T) {
+	kit.RequireEngine(t)
+	rep := kit.NewReport("C17", "multi")
+	defer rep.Write(t)
+	cases := kit.LoadCases(t, "multi.ndjson")
+	for ci, c := range cases {
+		backoff := ci%3 == 2
+		gate := kit.NewGate()
+		verifhook.Install(gate.Handler)
+		ticks := make(chan uint64)
+		ticker := NewTicker(ticks)
+		counts := map[string]*int64{}
+		cancels := map[string]context.CancelFunc{}
+		backoffCalls := 0
+		sent := uint64(0)
+		get := func(h string) int64 {
+			if p, ok := counts[h]; ok {
+				return atomic.LoadInt64(p)
+			}
+			return 0
+		}
+		var bad string
+		for si, s := range c.Get("steps").List() {
+			h := s.Get("h").Str()
+			switch s.Get("a").Str() {
+			case "Register":
+				var n int64
+				counts[h] = &n
+				ctx, cancel := context.WithCancel(context.Background())
+				cancels[h] = cancel
+				ticker.handlersMutex.Lock()
+				before := len(ticker.handlers)
+				ticker.handlersMutex.Unlock()
+				var strategy Strategy = WithStandardStrategy()
+				if backoff {
+					strategy = WithBackoffStrategy()
+				}
+				p := &n
+				ScheduleRetransmissions(ctx, log.Logger("verif-c17"), ticker, func() error {
+					atomic.AddInt64(p, 1)
+					return nil
+				}, strategy)
+				// registration happens on a goroutine; a correct ticker adds one entry
+				kit.Eventually(2*time.Second, func() bool {
+					ticker.handlersMutex.Lock()
+					defer ticker.handlersMutex.Unlock()
+					return len(ticker.handlers) == before+1
+				})
+			case "Cancel":
+				cancels[h]()
+			case "Tick":
+				sent++
+				ticks <- sent
+			}
+			// expected retransmissions after this step
+			exp := map[string]int64{}
+			calls := s.Get("calls")
+			total := 0
+			for _, k := range calls.Keys() {
+				n := calls.Get(k).Int()
+				total += n
+				if backoff {
+					exp[k] = int64(c17Sched(n))
+				} else {
+					exp[k] = int64(n)
+				}
+			}
+			if backoff {
+				backoffCalls = total
+				gate.WaitArrived(c17Done, backoffCalls, 5*time.Second)
+			}
+			ok := kit.Eventually(5*time.Second, func() bool {
+				for k, e := range exp {
+					if get(k) < e {
+						return false
+					}
+				}
+				return true
+			})
+			time.Sleep(2 * time.Millisecond)
+			for k, e := range exp {
+				if g := get(k); g != e || !ok {
+					bad = fmt.Sprintf("after step %d (%s %s): message %s was retransmitted %d times, the specification says %d", si+1, s.Get("a").Str(), h, k, g, e)
+				}
+			}
+			if bad != "" {
+				break
+			}
+		}
+		if bad == "" {
+			time.Sleep(10 * time.Millisecond)
+			last := c.Get("steps").Idx(c.Get("steps").Len() - 1).Get("calls")
+			for _, k := range last.Keys() {
+				e := int64(last.Get(k).Int())
+				if backoff {
+					e = int64(c17Sched(last.Get(k).Int()))
+				}
+				if g := get(k); g != e {
+					bad = fmt.Sprintf("at the end: message %s was retransmitted %d times, the specification says %d", k, g, e)
+				}
+			}
+		}
+		strat := "standard"
+		if backoff {
+			strat = "backoff"
+		}
+		rep.Eval(strat+"/"+kit.Hash(c.X), map[string]interface{}{"strategy": strat, "steps": c.Get("steps").X})
+		if bad != "" {
+			rep.Diverge("multi:"+strat, "messages sharing one ticker: "+bad, c.X, nil, nil)
+		}
+		for _, cancel := range cancels {
+			cancel()
+		}
+		close(ticks)
+		verifhook.Uninstall()
+	}
+}
